@@ -4,7 +4,8 @@ import vlib, chainlib
 from vlib import Report
 
 
-def run_chain_check(pid, tier, replay, mc_quick, mc_thorough, sim_cfg, n_quick, n_thorough, focus, assumptions, extra_sims=()):
+def run_chain_check(pid, tier, replay, mc_quick, mc_thorough, sim_cfg, n_quick, n_thorough, focus, assumptions, extra_sims=(),
+                    need=None, vfail_quick=0):
     rep = Report(pid, tier, "model_checking")
     if replay:
         return chainlib.replay_file(rep, pid, replay)
@@ -22,8 +23,12 @@ def run_chain_check(pid, tier, replay, mc_quick, mc_thorough, sim_cfg, n_quick, 
         eb, _ = chainlib.gen_sim(cfg, nt if thorough else nq, vlib.seed(), workers=8 if thorough else 4, timeout=3000)
         extra.append({"config": cfg, "behaviours": len(eb)})
         behs = behs + eb
-    results = chainlib.replay(pid, behs, procs=10 if thorough else 8, twin=True, deep=thorough)
+    results = chainlib.replay(pid, behs, procs=10 if thorough else 8, twin=True, deep=thorough, vfail=0 if thorough else vfail_quick)
     stats = chainlib.report_results(rep, behs, results)
+    reach = chainlib.quota_stats(behs, results)
+    if need and not rep.violations and not getattr(rep, "known_hit", None):
+        # (a run cut short by a violation stops each behaviour at its first divergence: quotas only bind a clean run)
+        chainlib.check_quotas(reach, need)
     rep.coverage = {
         "states": sum(m["distinct_states"] for m in mcs),
         "transitions": sum(m["states_generated"] for m in mcs),
@@ -34,6 +39,7 @@ def run_chain_check(pid, tier, replay, mc_quick, mc_thorough, sim_cfg, n_quick, 
         "behaviour_generator": {"config": sim_cfg, "mode": "tlc -simulate", "seed": vlib.seed(), "extra": extra},
         "replayed_steps": stats["steps"],
         "step_classes_observed": stats["classes"],
+        "reach_counters": reach, "reach_quotas": need or {},
         "twin_root_comparisons": stats["twin_checked"],
         "observations_outside_the_properties": stats["observations_outside_the_properties"],
         "distinct_nontrivial_behaviours": chainlib.nontrivial(behs),
